@@ -1527,8 +1527,7 @@ if sql:
       setdefault.__doc__ = dict.setdefault.__doc__
       def update(self, adict, **kwds):
           if hasattr(adict,'__asdict__'): adict = adict.__asdict__()
-          elif hasattr(adict, 'copy'): adict = adict.copy()
-          else: adict = dict(adict)
+          else: adict = dict(adict) # a mapping, or an iterable of pairs
           adict.update(**kwds)
           [self.__setitem__(k,v) for (k,v) in adict.items()]
           return #XXX: should do the above all at once, and more efficiently
@@ -1758,8 +1757,7 @@ else:
       setdefault.__doc__ = dict.setdefault.__doc__
       def update(self, adict, **kwds):
           if hasattr(adict,'__asdict__'): adict = adict.__asdict__()
-          elif hasattr(adict, 'copy'): adict = adict.copy()
-          else: adict = dict(adict)
+          else: adict = dict(adict) # a mapping, or an iterable of pairs
           adict.update(**kwds)
           [self.__setitem__(k,v) for (k,v) in adict.items()]
           return
